@@ -66,9 +66,12 @@ def runRx (args : List String) : String :=
   | ne :: nv :: pkts =>
     match ne.toNat?, nv.toNat? with
     | some ne, some nv =>
-      match runPackets { nEed := ne, nEnv := nv } {} pkts with
+      -- a trailing `send`: the client sends a small message afterwards; with a packet size in force that
+      -- is always usable (only sizes 9..65535 are ever put in force) the send succeeds
+      let hasSend := pkts.contains "send"
+      match runPackets { nEed := ne, nEnv := nv } {} (pkts.filter (· != "send")) with
       | some (rx, o) =>
-        s!"D=[{joinSep " | " o.delivered}] E={o.errs} H=[{joinSep " ; " o.hooks}] PS={o.psize} Q={rx.buf.length}/{if rx.eom then 1 else 0}"
+        s!"D=[{joinSep " | " o.delivered}] E={o.errs} H=[{joinSep " ; " o.hooks}] PS={o.psize} Q={rx.buf.length}/{if rx.eom then 1 else 0}{if hasSend then " S=ok" else ""}"
       | none => "panic"
     | _, _ => "bad-op"
   | _ => "bad-op"
